@@ -454,8 +454,8 @@ def evaluate():
     if exc is None:
         if anyfail:
             bad.append("c06_failure_swallowed")
-        if not anyfail and not interrupted and any(started[i] != 1 for i in range(N)):
-            bad.append("c04_not_all_ran")
+        if not interrupted and any(started[i] != 1 for i in range(N)):
+            bad.append("c04_not_all_ran")  # run returned normally ("successful") although a needed call never ran exactly once
         if interrupted:
             bad.append("c17_interrupt_swallowed")
     else:
